@@ -14,7 +14,8 @@ FLOOR = {"quick": 600, "thorough": 600}  # conclusive cases below which a run is
 TIMEOUT = 90
 REQUIRED_OBS = ["waits", "returns_checked", "returned_state", "returned_event", "returned_time", "returned_timeout", "returned_none", "condition_exceptions", "cancel_points_injected", "residue_comparisons", "mqtt_webhook_waits"]
 RULE = (
-    "task.wait_until called from a service with generated combinations of state_trigger (expression over one entity, optional "
+    "task.wait_until called from a service with generated combinations of state_trigger (expression over one entity, in every other case naming it by value, "
+    ".old and attribute next to four more watched entities; optional "
     "state_check_now / state_hold), event_trigger (with/without filter, also a filter that raises), time_trigger (once(now+N), a past "
     "once() = no future instant), mqtt_trigger, webhook_trigger and timeout in {None, 0, T}, against timed histories of state changes / events "
     "/ messages before the call, during the wait and after the return, on the virtual clock, both subsystems. Oracle: composed reference "
